@@ -117,6 +117,16 @@ def classify(diag, gen, unit):
             name += '@%s#%s' % (sd.get('loop', sd.get('k')), sd.get('clause'))
     site_d = describe_line(gen, site_sp.get('line_start')) if (site_sp is not None and own(site_sp)) else {}
     clause_d = describe_line(gen, clause_sp.get('line_start')) if (clause_sp is not None and own(clause_sp)) else {}
+    # a `// #Cxx` tag on any line of the failed clause (template text or contract section) restricts the
+    # obligation to those properties
+    if clause_sp is not None and own(clause_sp) and not clause_d.get('props'):
+        from .extract import clause_props
+        for ln in range(clause_sp.get('line_start'), (clause_sp.get('line_end') or clause_sp.get('line_start')) + 1):
+            if 1 <= ln <= len(gen.lines):
+                pr = clause_props(gen.lines[ln - 1])
+                if pr:
+                    clause_d = dict(clause_d, props=pr)
+                    break
     ob = {
         'props_site': site_d.get('fn_props'),
         'props_clause': clause_d.get('props') if clause_d.get('props') else clause_d.get('fn_props') if clause_d.get('k') in ('spec', 'inv') and kind.startswith('post') else clause_d.get('props'),
